@@ -1045,6 +1045,79 @@ def symlink_probe(ctx) -> tuple[str, str] | None:
         shutil.rmtree(top, ignore_errors=True)
 
 
+def directed_probes(ctx) -> list[tuple[str, str, dict]]:
+    """(1) Files with byte-identical contents reached in one traversal: an edit made through one mapping entry is
+    written to that file only. (2) One Editor instance used for several blocks: a block that mutated its model and
+    then raised leaves nothing behind - the next block on the same path (same Editor) sees the file as it is on disk
+    and a read-only block writes nothing; likewise for the recursive form."""
+    from autobean_refactor import editor as editor_lib
+    out = []
+    top = os.path.realpath(tempfile.mkdtemp(prefix='dp', dir=str(ctx.scratch)))
+    old = os.getcwd()
+    try:
+        stub = b'2000-01-01 open Assets:Stub\n2000-01-02 * "n"\n  Assets:Stub  1 USD\n  Equity:Open\n'
+        os.makedirs(os.path.join(top, 'm'))
+        files = {'main.bean': b'include "m/*.bean"\ninclude "t.bean"\n2000-01-01 open Assets:Main\n',
+                 'm/01.bean': stub, 'm/02.bean': stub, 'm/03.bean': stub, 't.bean': stub}
+        for rel, data in files.items():
+            with open(os.path.join(top, rel), 'wb') as f:
+                f.write(data)
+            os.utime(os.path.join(top, rel), ns=(OLD_NS, OLD_NS))
+        ed = editor_lib.Editor(_parser())
+        with ed.edit_file_recursive(os.path.join(top, 'main.bean')) as fs:
+            distinct = len({id(v) for v in fs.values()})
+            fs[os.path.join(top, 'm/02.bean')].raw_directives[0].raw_account.value = 'Assets:Edited'
+        ctx.count('twin_file_probes')
+        after = snapshot(top)
+        want = dict(files)
+        want['m/02.bean'] = stub.replace(b'Assets:Stub\n', b'Assets:Edited\n', 1)
+        for rel in sorted(files):
+            if after[rel][0] != want[rel]:
+                out.append(('C16:other-file-touched' if rel != 'm/02.bean' else 'C16:changed-not-exact',
+                            f'four files with identical contents, one edited through its own entry (m/02.bean): {rel} now holds '
+                            f'{after[rel][0][:60]!r} ({distinct} distinct models were handed out for 5 files)', {'directed': 'twin-files'}))
+                break
+        # (2) one Editor, a raising block, then further blocks
+        path = os.path.join(top, 't.bean')
+        for form in ('edit_file', 'edit_file_recursive'):
+            with open(path, 'wb') as f:
+                f.write(stub)
+            os.utime(path, ns=(OLD_NS, OLD_NS))
+            ed = editor_lib.Editor(_parser())
+            opener = (lambda: ed.edit_file(path)) if form == 'edit_file' else (lambda: ed.edit_file_recursive(path))
+            get = (lambda x: x) if form == 'edit_file' else (lambda x: x[path])
+            try:
+                with opener() as x:
+                    get(x).raw_directives_with_comments.pop(0)
+                    raise BodyRaised()
+            except BodyRaised:
+                pass
+            ctx.count('editor_reuse_probes')
+            if open(path, 'rb').read() != stub:
+                out.append(('C16:raise-touched', f'{form}: the block raised but the file was rewritten', {'directed': 'editor-reuse'}))
+                continue
+            with opener() as x:
+                n = len(get(x).raw_directives)
+            st = os.stat(path)
+            if n != 2 or open(path, 'rb').read() != stub or st.st_mtime_ns != OLD_NS:
+                out.append(('C16:aborted-edit-leaks-into-next-block',
+                            f'{form} on one Editor: after a block that removed a directive and then raised, the next (read-only) block '
+                            f'on the same path got a model with {n} directive(s) (2 on disk) and the file '
+                            f'{"was rewritten" if open(path, "rb").read() != stub or st.st_mtime_ns != OLD_NS else "was left alone"}',
+                            {'directed': 'editor-reuse', 'form': form}))
+                continue
+            with opener() as x:
+                get(x).raw_directives[0].raw_account.value = 'Assets:Second'
+            if open(path, 'rb').read() != stub.replace(b'Assets:Stub\n', b'Assets:Second\n', 1):
+                out.append(('C16:changed-not-exact', f'{form} on one Editor: the third block\'s edit is not what the file holds', {'directed': 'editor-reuse'}))
+    except Exception as e:
+        out.append(('C16:harness', f'directed editor probes failed: {type(e).__name__}: {e}', {'directed': 'probes'}))
+    finally:
+        os.chdir(old)
+        shutil.rmtree(top, ignore_errors=True)
+    return out
+
+
 def run(ctx: common.Ctx):
     ctx.rule = ('hand-written corpus (bare path, CRLF, cycle+diamond+glob) then seeded scenarios: 1-7 files in up to 5 '
                 'directories, 0-3 include directives per file (relative paths with ./ and ../, absolute paths, globs incl. **, '
@@ -1102,6 +1175,8 @@ def run(ctx: common.Ctx):
     r = symlink_probe(ctx)
     if r:
         ctx.monitor_failure(r[0], r[1], {'directed': 'symlink-dotdot'})
+    for sig, what, wit in directed_probes(ctx):
+        ctx.monitor_failure(sig, what, wit)
 
 
 def search(ctx: common.Ctx):
